@@ -230,12 +230,13 @@ class OpsMixin:
         req.n = step.get("num", 1)
         self.reqs.append(req)
         fk = step.get("func_kind")
+        gname = self.resolve_gname(pr, step.get("gname"))
+        req.named = gname is not None
         func = (fresh_bad_func(fk) if req.idx % 3 else BAD_FUNCS.get(fk, _plain)) if fk else self.make_func(req)
         if fk:
             req.func = func
         req.args_obj = self.make_args(step.get("args", 0), req)
         req.kwargs_obj = self.make_kwargs(step.get("kwargs"), req)
-        gname = self.resolve_gname(pr, step.get("gname"))
         kw = {}
         if gname is not None:
             kw["group_name"] = gname
@@ -250,12 +251,18 @@ class OpsMixin:
         if req.kwargs_obj is not None:
             kw["kwargs"] = req.kwargs_obj
         if step.get("args", 0) or step.get("args_explicit"):
-            kw["args"] = req.args_obj
+            kw["args"] = getattr(req, "args_passed", None) or req.args_obj
 
         def call():
             return pr.obj.apply(func, **kw)
 
-        return self._spawn(pr, req, "apply", call, gname, None, fk)
+        name = self._spawn(pr, req, "apply", call, gname, None, fk)
+        passed = getattr(req, "args_passed", None)
+        if passed is not None:
+            self.sit["apply.one_shot_args" + (".rejected" if name is None else "")] += 1
+            if name is None and passed.pulled and not self.skip_rejected:
+                self.violate("C09.no_trace", f"rejected apply advanced the one-shot iterator given as args ({passed.pulled} steps)")
+        return name
 
     def op_map(self, step, issuer):
         pr = self.pools[step["pool"]]
@@ -265,11 +272,12 @@ class OpsMixin:
         req = ReqRec(len(self.reqs), pr, kind, step)
         self.reqs.append(req)
         fk = step.get("func_kind")
+        gname = self.resolve_gname(pr, step.get("gname"))
+        req.named = gname is not None
         func = (fresh_bad_func(fk) if req.idx % 3 else BAD_FUNCS.get(fk, _plain)) if fk else self.make_func(req)
         if fk:
             req.func = func
         it = self.make_iterable(req)
-        gname = self.resolve_gname(pr, step.get("gname"))
         kw = {}
         if gname is not None:
             kw["group_name"] = gname
@@ -344,6 +352,9 @@ class OpsMixin:
     def op_set_size(self, step, issuer):
         pr = self.pools[step["pool"]]
         v = step["v"]
+        same = v == "same"
+        if same:
+            v = pr.size  # the size the pool already has is assigned once more: the pool size stays fixed
         val = float("inf") if v is None else v
         self.refresh_created(pr)
         snap = self.snapshot(pr)
@@ -372,6 +383,11 @@ class OpsMixin:
         if v is not None and v < 0:
             self.violate("C15.negative", f"pool_size = {v} was accepted")
             self.violate("C09.raises", f"pool_size = {v} was accepted")
+            return
+        if same:
+            self.sit["C01.same_size_assigned" + (".in_callbacks" if pr.cb_in_progress else ".busy" if pr.L else ".idle")] += 1
+            self.note_op("set_size", f"same:{min(pr.L, 3)}:{'cb' if pr.cb_in_progress else '-'}")
+            self.check_instant(pr, ("set_size", v))
             return
         pr.size = v
         pr.size_set_iter = self.loop.vf_iteration
@@ -617,7 +633,8 @@ class OpsMixin:
             return dead[sel[1] % len(dead)] if dead else f"never-{sel[1]}"
         if k == "unknown":
             self.unknown_names += 1
-            return f"no-such-group-{sel[1] if len(sel) > 1 else 0}"
+            n = sel[1] if len(sel) > 1 else 0
+            return ("no-such-group-{}", "no such group {}", "100%-{}", "%s{}", "{{0}}{}", "%(g)s{}")[n % 6].format(n)
         if k == "name":
             return sel[1]
         return None
